@@ -13,6 +13,14 @@ Theorem C15_roundtrip : forall (C : codecs) data comp lvl cks s,
 Proof. intros C data comp lvl cks s. exact (roundtrip_gen C true data comp lvl cks s). Qed.
 Print Assumptions C15_roundtrip.
 
+(* Without decompression requested (and for SerializePrecompressedData): the stored payload comes
+   back untouched together with its compression format, for any 3-bit format id. *)
+Theorem C15_precompressed_roundtrip : forall (C : codecs) p comp cks s,
+  p <> [] -> bytes_ok p -> comp < 8 -> checksum_ok cks ->
+  serialize_pre p comp cks = Ok s -> deserialize C s false = Ok (p, comp).
+Proof. intros C. exact (precompressed_roundtrip C true). Qed.
+Print Assumptions C15_precompressed_roundtrip.
+
 (* With a CRC32, a stored value whose payload differs in one byte position (any of the 255
    other byte values: every single-bit and single-byte corruption) is an error, whatever the
    compression format and whether or not decompression is requested. *)
